@@ -36,6 +36,9 @@ CHECKS = {
  'C20': dict(text="Machine-checked Lean 4 proofs about a tensor/record model of both file formats: .T is an involution; read(write flags a metric names) = (a, metric, names, no support) for every shape (zero-sized axes included) and all four (compression, transpose) combinations; the compression flag never enters the read path; for JSON the nested list has the array's elements in row-major order and its inferred shape is the array's shape when no axis is empty, with a proved counterexample for an empty axis (the known finding); a signature mismatch on load is a ValueError. Tied to /repo by writing and reading real .ga (h5py) and JSON files for shapes with 0..3 leading axes incl. empty, int/float dtypes, degenerate signatures, all flag combinations, comparing what is stored (shape, flags) with the model's record and what is read back with what was written; MVArray.save -> load_ga_file equality and the mismatch error.",
              technique="Lean 4 proof (axis-reversal involution, record round trip, nested-list induction) + file-record correspondence",
              design="§6 C20"),
+ 'C08': dict(text="Machine-checked Lean 4 proofs from the defining relations alone, in any Q-algebra (so for every base dimension and every base signature at once): eo and einf are null, eo.einf=-1, E0*E0=1, up(x) is null, up(x).einf=-1, up(x).up(y) = -(x-y)^2/2, homo removes any scale s, and down(up(x))=x; plus a theorem that the model algebra of every conformalised layout (added signature [+1,-1]) satisfies those relations for every base vector. PARTIAL: gac/dpga/dg3c round trips have no theorem. Tied to /repo by comparing ConformalLayout's constants and up/down with the executable model for every (p,q) with p+q<=4 (<=6 thorough), by evaluating each identity on the real operators with integer/dyadic base vectors over 2^-10..2^20 and dyadic scales (exactly, or against the exact rational value), and by the down(up(x))=x round trips and exported blades/signatures of the shipped modules.",
+             technique="Lean 4 proof (rewrite to normal-ordered monomials from the generator relations, closed by `module`) + correspondence with the executable conformal model",
+             design="§6 C08"),
 }
 
 def main():
